@@ -146,7 +146,7 @@ pub fn scenarios(tier: Tier) -> Vec<C09Scn> {
 				early_release: None,
 				..Deviations::default()
 			},
-			k: if th { 4 } else { 3 },
+			k: if th { 3 } else { 2 },
 			async_from_start: vec![0, 1],
 			max_disconnects: 1,
 		});
